@@ -291,7 +291,7 @@ class FIXContainer:
         """
         g = self.get_group_list(tag)
 
-        if index >= len(g):
+        if index >= len(g) or index < -len(g):
             raise TagNotFoundError(
                 f"get_group_by_index: index is out of range of {tag=} group"
             )
